@@ -152,8 +152,8 @@ LayB(l) == CASE l = 1 -> 8 [] l = 2 -> 6 [] l = 3 -> 8 [] l = 4 -> 12 [] l = 5 -
 (* the limits: 1 neither supplied; 2 both, one beyond the data on each side; 3 both, not integers; and the     *)
 (* zero-valued ones, placed so that 0 is NOT what the positions would give: 4 xmin = 0 only (data start above *)
 (* 0); 5 xmax = 0 only (data all negative); 6 xmin = 0 and xmax both; 7 xmin and xmax = 0 both                *)
-(* (not on layouts 6 and 8: the ranges 0..1008 with 1/128 steps and 0..30008 do not fit 32 bits) *)
-MinMaxOK(mm, l) == CASE mm \in {4, 6} -> (LayA(l) > 0 /\ l \notin {6, 8}) [] mm \in {5, 7} -> LayB(l) < 0 [] OTHER -> TRUE
+(* (only on layout 4: the ranges 0..1008 with 1/128 steps, 0..133 cubed and 0..30008 do not fit 32 bits) *)
+MinMaxOK(mm, l) == CASE mm \in {4, 6} -> (LayA(l) > 0 /\ l \notin {6, 7, 8}) [] mm \in {5, 7} -> LayB(l) < 0 [] OTHER -> TRUE
 NMinMax == 7
 (* jump kinds: none; narrow inside; wide inside with a negative value; wholly below the     *)
 (* data; wholly above; straddling the upper end; 7-11: zero / negative / edge parameters    *)
